@@ -31,6 +31,11 @@ func newExec(w *World, ss *SpecSet, fn *ssa.Function, spec *FuncSpec) *Exec {
 		modset: map[string][]modLoc{}, closureIDs: map[string]*Closure{}, cardDone: map[string]bool{},
 		typeTags: map[string]int{}, boxAx: map[string]bool{}, usedSpecs: map[string]*FuncSpec{},
 		wsCache: map[*ssa.Function]map[string]bool{}, globalByRef: map[string]*ssa.Global{}, epochFrames: map[int]*epochFrame{}, boxClosures: map[string]*Closure{}, defaultSpecs: map[string]*FuncSpec{}, witnesses: map[string]Val{}}
+	// the thread-local ghost heaps exist in every function (write sets mention
+	// them before the first instruction that uses them is executed)
+	for _, n := range tlHeaps {
+		e.regHeap(n, arraySort(sInt, sInt), nil, 'G', "")
+	}
 	return e
 }
 
